@@ -89,11 +89,14 @@ where
             write!(result, "{start},{second_processor_id}")
                 .expect("writing to a String is infallible");
         } else {
+            // We subtract before adding so that a group ending at the maximum item value
+            // does not overflow in the intermediate result.
             let last_processor_id = start
-                .checked_add(len)
-                .expect("overflow impossible unless we far exceed any realistic processor ID range")
-                .checked_sub(1)
-                .expect("cannot underflow because len is NonZero");
+                .checked_add(
+                    len.checked_sub(1)
+                        .expect("cannot underflow because len is NonZero"),
+                )
+                .expect("cannot overflow because the last item of the group is a valid item");
 
             write!(result, "{start}-{last_processor_id}")
                 .expect("writing to a String is infallible");
